@@ -1107,9 +1107,10 @@ func luaMod(a, b float64) (float64, bool) {
 	if r2 != 0 && (r2 < 0) != (b < 0) {
 		r2 += b
 	}
-	if r1 != r2 || r1 == 0 && r2 == 0 && math.Signbit(r1) != math.Signbit(r2) {
+	if r1 != r2 {
 		return 0, false
 	}
+	// (a zero result is +0 by the 5.1 definition, whatever sign fmod gives it)
 	return r1, true
 }
 
@@ -1126,7 +1127,13 @@ func (in *Interp) arith(op string, a, b float64) float64 {
 	case "%":
 		r, ok := luaMod(a, b)
 		if !ok {
-			unspecified("modulo where the two definitions differ (inf/nan/zero divisor/rounding)")
+			switch {
+			case b == 0:
+				unspecified("modulo by zero (nan in 5.1 on most platforms; not fixed)")
+			case math.IsInf(a, 0) || math.IsInf(b, 0) || math.IsNaN(a) || math.IsNaN(b):
+				unspecified("modulo with an infinite or nan operand")
+			}
+			unspecified("modulo where the two definitions differ (rounding)")
 		}
 		return r
 	case "^":
